@@ -1,5 +1,11 @@
 package values
 
+import "math"
+
+// maxRangeArray is the largest range that is converted to an array (by an array filter, say).
+// Loops do not convert the range they iterate over.
+const maxRangeArray = math.MaxInt32
+
 // A Range is the range of integers from b to e inclusive.
 type Range struct {
 	b, e int
@@ -15,7 +21,11 @@ func (r Range) Len() int {
 	if r.e < r.b {
 		return 0
 	}
-	return r.e + 1 - r.b
+	// e - b + 1 does not fit an int for ranges such as (0..MaxInt) or (-1..MaxInt)
+	if d := r.e - r.b; d >= 0 && d < math.MaxInt {
+		return d + 1
+	}
+	return math.MaxInt
 }
 
 // Index is in the iteration interface
@@ -24,6 +34,10 @@ func (r Range) Index(i int) any { return r.b + i }
 // AsArray converts the range into an array.
 func (r Range) AsArray() []any {
 	n := r.Len()
+	if n > maxRangeArray {
+		// reported like any other value that cannot be converted
+		panic(typeErrorf("can't convert the range (%d..%d) to an array: it has too many elements", r.b, r.e))
+	}
 	a := make([]any, 0, n)
 	// count the elements: "i <= r.e" never becomes false when r.e is the largest int
 	for i := 0; i < n; i++ {
